@@ -150,6 +150,10 @@ def save_bytes(case, path=None):
         os.unlink(p)
 
 
+_HELD = None
+LATER_CHANGE = [None]     # set by load_bytes: what an earlier load's arrays say now, if they changed
+
+
 def load_bytes(data):
     """Run the real IndxIO.load on a real file holding `data`; arrays are
     detached from the mapping before the file disappears."""
@@ -166,7 +170,19 @@ def load_bytes(data):
             for k, v in entries.items():
                 info[k] = (type(v).__name__, str(getattr(v, "dtype", None)))
                 out[k] = numpy.array(v)
-            del entries
+            # the arrays the loader handed out for the PREVIOUS file are still held: what they say now is compared
+            # with the copies taken then (a result must not change because another file was loaded afterwards)
+            global _HELD
+            prev, _HELD = _HELD, (entries, {k: v.copy() for k, v in out.items()})
+            LATER_CHANGE[0] = None
+            if prev is not None:
+                raw, copies = prev
+                for k, c in copies.items():
+                    now = numpy.asarray(raw[k])
+                    if now.shape != c.shape or not numpy.array_equal(now, c):
+                        LATER_CHANGE[0] = "row ids loaded earlier for key %r read %r now, %r when they were returned" % (
+                            k, now[:6].tolist(), c[:6].tolist())
+                        break
         return out, common, dt, info
     finally:
         os.unlink(p)
